@@ -207,19 +207,36 @@ def est_template(ctx, facts, fid):
     if len(conds) != 1 or len(eq) != 1:
         ctx.violation("EST", fid, "F3 condition", hirq.loc(acc), "`%s += 1` must be guarded by exactly one equality a[i] == b[i]; conditions: %s" % (cnt, conds))
         return None
-    m1 = re.match(r"^(.*)\[(\w+)\]$", eq[0][1])
-    m2 = re.match(r"^(.*)\[(\w+)\]$", eq[0][3])
-    if not m1 or not m2 or m1.group(2) != var or m2.group(2) != var or m1.group(1) == m2.group(1):
-        ctx.violation("EST", fid, "F3 compared elements", hirq.loc(acc), "the comparison `%s == %s` is not a[%s] == b[%s] on the two sketches with the loop index on both sides" % (eq[0][1], eq[0][3], var, var))
-        return None
-    a, b = m1.group(1), m2.group(1)
-    lens = {"%s.len()" % a, "%s.len()" % b}
-    # F2: range and exits
-    rng = nf.nf(fl["iter"], True)
-    m = re.match(r"^std::ops::Range\{start:(.*), end:(.*)\}$", rng)
-    if not m or m.group(1) != "0" or _resolve(fn, m.group(2)) not in lens:
-        ctx.violation("EST", fid, "F2 range", hirq.loc(fl["loop"]), "the loop ranges over `%s`; expected 0..len of one of the two sketches (%s)" % (rng, sorted(lens)))
-        return None
+    zipped = None
+    itn = nf.strip(fl["iter"])
+    if itn["k"] == "MethodCall" and itn["name"] == "zip" and len(itn["args"]) == 1 and fl["pat"]["k"] == "Tuple" and len(fl["pat"]["subs"]) == 2:
+        def _base(e):
+            e = nf.strip(e)
+            while e["k"] == "MethodCall" and e["name"] in ("iter", "into_iter") and not e["args"]:
+                e = nf.strip(e["recv"])
+            return nf.nf(e, True)
+        px, py = hirq.show_pat(fl["pat"]["subs"][0]), hirq.show_pat(fl["pat"]["subs"][1])
+        if {eq[0][1], eq[0][3]} == {px, py}:
+            zipped = (_base(itn["recv"]), _base(itn["args"][0]))
+    if zipped is not None and zipped[0] != zipped[1]:
+        # for (x, y) in a.iter().zip(b.iter()) { if x == y { count += 1 } }: same-index pairs over the common length,
+        # which is the full length once F1 has established equal lengths
+        a, b = zipped
+        lens = {"%s.len()" % a, "%s.len()" % b}
+    else:
+        m1 = re.match(r"^(.*)\[(\w+)\]$", eq[0][1])
+        m2 = re.match(r"^(.*)\[(\w+)\]$", eq[0][3])
+        if not m1 or not m2 or m1.group(2) != var or m2.group(2) != var or m1.group(1) == m2.group(1):
+            ctx.violation("EST", fid, "F3 compared elements", hirq.loc(acc), "the comparison `%s == %s` is not a[%s] == b[%s] on the two sketches with the loop index on both sides" % (eq[0][1], eq[0][3], var, var))
+            return None
+        a, b = m1.group(1), m2.group(1)
+        lens = {"%s.len()" % a, "%s.len()" % b}
+        # F2: range and exits
+        rng = nf.nf(fl["iter"], True)
+        m = re.match(r"^std::ops::Range\{start:(.*), end:(.*)\}$", rng)
+        if not m or m.group(1) != "0" or _resolve(fn, m.group(2)) not in lens:
+            ctx.violation("EST", fid, "F2 range", hirq.loc(fl["loop"]), "the loop ranges over `%s`; expected 0..len of one of the two sketches (%s)" % (rng, sorted(lens)))
+            return None
     exits = [k for (k, n) in loop_exits(fn, fl["loop"]) if k != "iterator-exhausted"]
     if exits:
         ctx.violation("EST", fid, "F2 early exit", hirq.loc(fl["loop"]), "the counting loop can be left early (%s)" % exits)
@@ -255,6 +272,9 @@ def est_template(ctx, facts, fid):
     while r.startswith("(") and r.endswith(")") and _balanced(r[1:-1]):
         r = r[1:-1]
     mm = re.match(r"^(.+?) / (.+)$", r)
+    if mm and _resolve(fn, mm.group(2)) in lens:
+        r = "%s / %s" % (mm.group(1), _resolve(fn, mm.group(2)))
+        mm = re.match(r"^(.+?) / (.+)$", r)
     if not mm or mm.group(1) != cnt or mm.group(2) not in lens:
         ctx.violation("EST", fid, "F4 result", hirq.loc(rets[0]), "the result is `%s`; expected %s / <sketch length>" % (r, cnt))
         return None
@@ -297,9 +317,22 @@ PANIC_MLE = {
 }
 
 
-def panic_table(ctx, facts, fid, table):
-    counts = {}
+TABLED = set()
+
+
+def panic_table(ctx, facts, fid, table, _seen=None, _counts=None):
+    """classifies every panic edge of fid; in-crate callees that have no table of their own (extracted helpers) are
+    inventoried under the caller's table, so moving code into a helper neither hides an edge nor raises an alarm"""
+    seen = _seen if _seen is not None else set()
+    seen.add(fid)
+    counts = _counts if _counts is not None else {}
     n = 0
+    for callee in panic.incrate_callees(facts, fid):
+        if callee in seen or callee in PANIC_MLE or callee in COUNTING or callee.startswith(("<LOG", "init_log")):
+            continue
+        if not facts.fns[callee].get("hir"):
+            continue
+        n += panic_table(ctx, facts, callee, table, seen, counts)
     for e in panic.edges_of(facts, fid):
         if e["expn"][1] in hirq.LOG_MACROS or e["expn"][0] in hirq.LOG_MACROS:
             continue
@@ -407,5 +440,5 @@ def run(ctx, facts):
         ne += panic_table(ctx, facts, alias, [])
     for fid, table in PANIC_MLE.items():
         ne += panic_table(ctx, facts, fid, table)
-    ctx.floor("C14 panic edges classified", ne, 40 if facts.has(COUNTING[5]) else 30)
+    ctx.floor("C14 panic edges classified", ne, 20)
     clamp_rule(ctx, facts)
